@@ -9,7 +9,8 @@ SPEC = dict(
                "`wtf pipeline` is checked for the implied weaker clauses. The analyzer is run three times (two analyzers) on each generated "
                "directory and its report is checked against the clauses of the statement and a reference marker table. Per-path floors make a "
                "run that missed a path incomplete. Large databases (the shipped one, generated ones of 1200-2700 entries) are asked with their most "
-               "frequent words (requests with more than 400 candidates); one directory in 96 is crowded with 300-20000 entries that announce nothing. "
+               "frequent words (requests with more than 400 candidates); one directory in 96 is crowded with 300-20000 entries that announce nothing; half of the twin directories (same listing, other place) "
+               "lie inside other projects (a repository and markers of other project types in the parent directories). "
                "Exploration over generated inputs, not a proof.",
     level_note="Trusted: generators, the reference tokenizer of vlib (decides 'contains a boosted word' on the SearchUniversal path), entry identity "
                "by address, the Go runtime and the local file system (os.ReadDir order). Only generated inputs are decided.",
@@ -26,10 +27,10 @@ SPEC = dict(
          "analyzer: case = generated directory (any subset of ~45 marker names incl. pattern markers, markers created as directories, near-miss "
          "decoys, random non-marker names, package.json of 16 shapes, Makefile text of 17 line shapes, LF/CRLF); non-trivial = distinct listing "
          "(names + package.json/Makefile bytes) with >= 2 marker classes or a package.json or a non-empty Makefile.",
-    floors=T({"crowded-directories-over-4096": 4, "requests-with-over-400-candidates": 8, "frequent-word-queries": 10, "cli-context-pairs-in-project": 80, "cli-context-raised-a-score": 6, "evaluations": 11000, "distinct_nontrivial": 3500, "pairs-nlp-off": 3000, "pairs-nlp-on": 3000, "pairs-pipeline": 3000,
+    floors=T({"dirs-twin-inside-other-projects": 100, "crowded-directories-over-4096": 4, "requests-with-over-400-candidates": 8, "frequent-word-queries": 10, "cli-context-pairs-in-project": 80, "cli-context-raised-a-score": 6, "evaluations": 11000, "distinct_nontrivial": 3500, "pairs-nlp-off": 3000, "pairs-nlp-on": 3000, "pairs-pipeline": 3000,
               "boost-effective": 2000, "shipped": 150, "entries-unrelated-checked": 20000, "entries-related-checked": 20000,
               "dirs": 1900, "dirs-generic": 200, "dirs-multi": 700, "package-json-valid": 100, "package-json-broken": 100, "makefile": 250},
-             {"crowded-directories-over-4096": 100, "requests-with-over-400-candidates": 100, "frequent-word-queries": 150, "evaluations": 110000, "distinct_nontrivial": 35000, "pairs-nlp-off": 30000, "pairs-nlp-on": 30000, "pairs-pipeline": 30000,
+             {"dirs-twin-inside-other-projects": 3000, "crowded-directories-over-4096": 100, "requests-with-over-400-candidates": 100, "frequent-word-queries": 150, "evaluations": 110000, "distinct_nontrivial": 35000, "pairs-nlp-off": 30000, "pairs-nlp-on": 30000, "pairs-pipeline": 30000,
               "boost-effective": 20000, "shipped": 1500, "entries-unrelated-checked": 200000, "entries-related-checked": 200000,
               "dirs": 19000, "dirs-generic": 2000, "dirs-multi": 7000, "package-json-valid": 1000, "package-json-broken": 1000, "makefile": 2500}),
     assumptions=[
